@@ -35,6 +35,9 @@ def run(chk):
 
     chk.attempt(r04l, chk, thorough=chk.tier == 'thorough')
     chk.attempt(r04m, chk, thorough=chk.tier == 'thorough')
+    from .c16b import r16i
+
+    chk.attempt(r16i, chk, 'R04.n')
 
 
 def _skip_calls(fn):
